@@ -103,7 +103,7 @@ theorem no_deadlock {c : Cfg St Thread} (hi : Inv c) (hw : Thread.writer ∈ c.2
     case send =>
       have h2 := hti _ ht
       simp only [TInv] at h2
-      have hsp := hl.once3_spawned (h2.2.2.2.1 (by simp))
+      have hsp := hl.once3_spawned (h2.2.2.2.2.1 (by simp))
       have hex : s.wpc = .exited := by
         rcases hwr with ⟨_, hs⟩ | he
         · simp [hsp] at hs
